@@ -282,6 +282,8 @@ class BaseSession(SessionInterface, Generic[MessageT]):
                             sequence_set: SequenceSet,
                             mailbox: str) \
             -> tuple[CopyUid | None, SelectedMailbox]:
+        if selected.readonly:
+            raise MailboxReadOnly()
         mbx = await self._get_selected(selected)
         dest = await self._get_mailbox(mailbox, try_create=True)
         if dest.readonly:
